@@ -88,8 +88,18 @@ Definition fp_ok (c : grammar * N) : bool :=
   | inl m => reads_back_with_actions (strip_rules (has_invalid_alt invalid_tbl iter_fields_tbl) (rules (fst c))) (strip_module m) && no_left_rec m
   | inr _ => false
   end.
+From Pegen Require Import Proofs.ExecUnguard.
+Definition sp_ok (c : grammar * N) : bool :=
+  match run_gen (fst c) (snd c) with
+  | inl m => reads_back_with_actions (rules (fst c)) (unguard_module m) && no_wi_methods m
+  | inr _ => false
+  end.
 """
-# grammars with invalid_ rules whose FIRST pass the theorem must keep covering
+RBS_SEEDS = [
+    "start: a NEWLINE\na: x=invalid_a { foo(x) } | NAME\ninvalid_a: NUMBER { foo() }\n",
+    "start: stmt* NEWLINE\nstmt: e=invalid_stmt { [e] } | NAME '=' NUMBER | NAME\ninvalid_stmt: a=NAME '=' b=NAME { foo(a, b) }\n",
+]
+# grammars with invalid_ rules whose FIRST pass (and, read with the guards removed, SECOND pass) the theorems must keep covering
 RBF_SEEDS = [
     "start: a NEWLINE\na: invalid_a | NAME\ninvalid_a: NUMBER { foo() }\n",
     "start: stmt* NEWLINE\nstmt: invalid_stmt | NAME '=' NUMBER | NAME\ninvalid_stmt: a=NAME '=' b=NAME { foo(a, b) }\n",
@@ -381,7 +391,7 @@ def run(chk: common.Check, tier: str):
     # character, what the real generator writes (the same comparison C10 makes on its own grammars)
     import genmodel as gm
     kcases = []
-    for t in RB_SEEDS + RBA_SEEDS + RBF_SEEDS + [x for x in texts if x not in RB_SEEDS and "{" not in x][:40]:
+    for t in RB_SEEDS + RBA_SEEDS + RBF_SEEDS + RBS_SEEDS + [x for x in texts if x not in RB_SEEDS and "{" not in x][:40]:
         try:
             c, _res = gm.case(g2c.read_grammar(t))
         except (SyntaxError, g2c.Untranslatable):
@@ -391,7 +401,7 @@ def run(chk: common.Check, tier: str):
     badk = common.run_cases(chk, "rb_kgen", gm.prelude(tokens_set()), gm.CASE_T, kcases, gm.OK, shard=16, timeout=900)
     if badk is not None:
         chk.oblige(f"correspondence K-gen on the grammars of the end-to-end theorem: Gen/Render.v over the generator model's IR equals "
-                   f"the real generator's output text on {len(kcases)} grammars (the RB_SEEDS, RBA_SEEDS and RBF_SEEDS floors and explored action-free ones)",
+                   f"the real generator's output text on {len(kcases)} grammars (the RB_SEEDS, RBA_SEEDS, RBF_SEEDS and RBS_SEEDS floors and explored action-free ones)",
                    not badk, json.dumps(badk[:5]))
     floor2 = [rb_term(t) for t in RBA_SEEDS]
     bad2 = common.run_cases(chk, "rba_floor", prelude + RB_PRELUDE, "(grammar * N)", [x for x in floor2 if x], "rba_ok", shard=4, timeout=600)
@@ -407,6 +417,14 @@ def run(chk: common.Check, tier: str):
                    "reads back as the source grammar without the alternatives mentioning an invalid_ rule (strip_rules with the extracted "
                    f"InvalidNodeVisitor table), for the {len(RBF_SEEDS)} shapes of RBF_SEEDS",
                    not bad4 and all(floor3), json.dumps([RBF_SEEDS[i] for i in bad4]))
+    floor4 = [rb_term(t) for t in RBS_SEEDS]
+    bad5 = common.run_cases(chk, "rbs_floor", prelude + RB_PRELUDE, "(grammar * N)", [x for x in floor4 if x], "sp_ok", shard=4, timeout=600)
+    if bad5 is not None:
+        chk.oblige("instance condition of C01_second_pass_implements_the_full_grammar: the module with its guards removed reads back as the "
+                   f"FULL source grammar (invalid_ alternatives included) and has no *_without_invalid method, for the {len(RBS_SEEDS)} shapes of RBS_SEEDS "
+                   "(invalid_ alternatives that carry their own action; a bare `invalid_x` alternative is emitted with the UNREACHABLE filler "
+                   "as its action, which is not the value the grammar's default rule gives it -- by design it never returns)",
+                   not bad5 and all(floor4), json.dumps([RBS_SEEDS[i] for i in bad5]))
     rnd = [(t, rb_term(t)) for t in texts if t not in RB_SEEDS]
     rnd = [(t, x) for t, x in rnd if x]
     bad = common.run_cases(chk, "rb_rnd", prelude + RB_PRELUDE, "(grammar * N)", [x for _, x in rnd], "rb_ok", shard=40, timeout=900)
